@@ -124,7 +124,9 @@ class ComparisonResult:
     for name in utils.get_output_tensor_names(
         self._reference_model, signature_key
     ):
-      output_tensor_results[name] = result.pop(name)
+      # Several signature outputs may refer to the same tensor.
+      if name not in output_tensor_results:
+        output_tensor_results[name] = result.pop(name)
 
     constant_tensor_results = {}
     # Only get constant tensors from the main subgraph of the signature.
